@@ -45,6 +45,9 @@ pub struct RepScenario {
     /// F-stale: longer output files of an earlier run exist at the output path before every
     /// non-reference execution
     pub stale_output: bool,
+    /// F-disk at the output path: "none" | "eisdir-json" | "eisdir-svg" | "enospc-json" |
+    /// "enospc-svg" (a directory, or a symlink to /dev/full, sits where the file is to be written)
+    pub out_fault: String,
     /// 0 = info (as the CLI without -v), 1 = debug, 2 = trace: the pipeline's debug!/trace!
     /// statements are then evaluated inside the simulated execution as well
     pub log_level: u64,
@@ -68,6 +71,7 @@ impl RepScenario {
             .set("max_step_size", J::f64bits(self.max_step_size))
             .set("convergence", J::opt_f64bits(self.convergence))
             .set("stale_output", J::Bool(self.stale_output))
+            .set("out_fault", J::str(self.out_fault.clone()))
             .set("log_level", J::uint(self.log_level))
     }
     pub fn from_json(j: &J) -> Result<RepScenario, String> {
@@ -93,6 +97,7 @@ impl RepScenario {
             max_step_size: f("max_step_size").ok_or("max_step_size")?,
             convergence: f("convergence"),
             stale_output: j.get("stale_output").and_then(|x| x.as_bool()).unwrap_or(false),
+            out_fault: j.get("out_fault").and_then(|x| x.as_str()).unwrap_or("none").to_string(),
             log_level: u("log_level").unwrap_or(0),
         })
     }
@@ -142,6 +147,7 @@ pub fn gen_rep_scenario(rng: &mut sim_core::prng::Rng, max_replicas: u64) -> Rep
         max_step_size: *rng.pick(&[0.01, 0.1, 0.2, 0.5, 1e-5, 3e-6, 1e-4]),
         convergence: *rng.pick(&[None, None, Some(1e-6)]),
         stale_output: rng.chance(0.3),
+        out_fault: "none".into(),
         log_level: *rng.pick(&[0u64, 0, 0, 1, 2]),
     }
 }
@@ -234,6 +240,20 @@ fn run_once(sc: &RepScenario, dir: &PathBuf, stale: bool) -> PipeResult {
         let _ = std::fs::write(out.with_extension("json"), &junk);
         let _ = std::fs::write(out.with_extension("svg"), &junk);
     }
+    let (jp, sp) = (out.with_extension("json"), out.with_extension("svg"));
+    let blocked: Option<&PathBuf> = match sc.out_fault.as_str() {
+        "eisdir-json" | "enospc-json" => Some(&jp),
+        "eisdir-svg" | "enospc-svg" => Some(&sp),
+        _ => None,
+    };
+    if let Some(p) = blocked {
+        let _ = std::fs::remove_file(p);
+        if sc.out_fault.starts_with("eisdir") {
+            let _ = std::fs::create_dir_all(p);
+        } else {
+            let _ = std::os::unix::fs::symlink("/dev/full", p);
+        }
+    }
     let builder = match sc.builder() {
         Ok(b) => b,
         Err(e) => {
@@ -285,8 +305,13 @@ fn run_once(sc: &RepScenario, dir: &PathBuf, stale: bool) -> PipeResult {
         ("trimer", true) => go!(PotentialState2::from_group(LJShape2::from_trimer(r, a, d), &wg)),
         _ => res.error = Some("HARNESS: unsupported shape/potential".into()),
     }
-    res.json = std::fs::read(out.with_extension("json")).ok();
-    res.svg = std::fs::read(out.with_extension("svg")).ok();
+    let regular = |p: &PathBuf| std::fs::symlink_metadata(p).map(|m| m.file_type().is_file()).unwrap_or(false);
+    res.json = if regular(&jp) { std::fs::read(&jp).ok() } else { None };
+    res.svg = if regular(&sp) { std::fs::read(&sp).ok() } else { None };
+    if let Some(p) = blocked {
+        let _ = std::fs::remove_dir_all(p);
+        let _ = std::fs::remove_file(p);
+    }
     res.final_score_log = LOG_LINES.with(|l| {
         l.borrow().iter().filter_map(|x| x.strip_prefix("Final score: ").map(|s| s.trim().to_string())).last()
     });
